@@ -173,7 +173,8 @@ Section RemapStep.
         * intro Hkk. assert (Hyx : y <> x') by (intros ->; apply Hkk; exact Hkx).
           rewrite (Hoth y Hyx), Fi. unfold upd. apply Nat.eqb_neq in Hyx. rewrite Hyx. apply D3. exact Hkk.
       + intros y Hy Hkk. rewrite Fkd in Hkk. apply (Cv y Hy Hkk).
-    - apply (inv1a_cont s); [split; assumption|apply (ri_1a _ _ _ R)].
+    - intros r0 Hr0. apply (inv1ar_same s s' r0 Fk Fp). apply (ri_1a _ _ _ R r0 Hr0).
+    - intros r0 p0 c0 Hc0. rewrite Fk in Hc0. rewrite Fn. apply (ri_kl _ _ _ R r0 p0 c0 Hc0).
     - intros r p c Hc. rewrite Fk in Hc. rewrite Fkd. apply (ri_t _ _ _ R r p c Hc).
     - exact P'.
     - (* the outer-pin tables *)
@@ -183,9 +184,9 @@ Section RemapStep.
           destruct (rx_di _ _ _ X e e' Hme Hke) as [DP _ _ DPr _]. split.
           -- intros [k [Hk Hmk]]. destruct (keys_old k Hk) as [_ [p [Hp Hkp]]]. destruct (DP p Hp) as [p' [Hpp [Hp'k [Hfw _]]]].
              destruct (Hfw k Hkp) as [k' [Hkk' Hk'k]]. rewrite (in_mget m k k' (st_fun _ _ _ ST0) Hkk') in Hmk. injection Hmk as <-.
-             exists e', p'. split; [reflexivity|]. split; apply (i1_kids _ (ri_1a _ _ _ R)); assumption.
+             exists e', p'. split; [reflexivity|]. split; [apply (proj1 (ri_1a _ _ _ R RPorts ltac:(discriminate)))|apply (proj1 (ri_1a _ _ _ R RPins ltac:(discriminate)))]; assumption.
           -- intros [d [p' [H0 [H1 H2]]]]. injection H0 as <-.
-             apply (i1_kids _ (ri_1a _ _ _ R)) in H1. apply (i1_kids _ (ri_1a _ _ _ R)) in H2.
+             apply (proj1 (ri_1a _ _ _ R RPorts ltac:(discriminate))) in H1. apply (proj1 (ri_1a _ _ _ R RPins ltac:(discriminate))) in H2.
              destruct (DPr p' H1) as [p [Hpp Hp]]. destruct (DP p Hp) as [p'' [Hpp'' [_ [_ Hrev]]]].
              assert (p'' = p') by (apply (memo_fun m p p'' p' (st_fun _ _ _ ST0)); assumption). subst p''.
              destruct (Hrev i H2) as [k [Hki Hkp]]. exists k. split; [|apply (in_mget m k i (st_fun _ _ _ ST0) Hki)].
@@ -264,10 +265,11 @@ Qed.
 
 Lemma rx_set_drefs s0 s m d' l : RX s0 s m -> next s0 <= d' -> RX s0 (set_drefs s d' l) m.
 Proof.
-  intros [[ST0 A T P K Ab Pl Po Pn Rl Nw Dr] DI] Hd. constructor.
+  intros [[ST0 A KL T P K Ab Pl Po Pn Rl Nw Dr] DI] Hd. constructor.
   - constructor.
     + destruct ST0 as [a b c d e f g h i j k l0 n]. constructor; assumption.
-    + apply (inv1a_cont s); [split; reflexivity|exact A].
+    + exact A.
+    + exact KL.
     + exact T.
     + apply (invp_same s _ P); [intro q; apply pw_ext; reflexivity|reflexivity].
     + apply (invk_same s _ K); reflexivity || (intro; reflexivity).
@@ -296,7 +298,7 @@ Proof.
   pose proof (rx_set_drefs s0 s m d' _ X Hd : RX s0 s1 m) as X1.
   change (kids s1 RChildren d') with (kids s RChildren d') in E.
   change (fold_idsR (rr_step m) (kids s RChildren d') s1 = (s', None)) in E.
-  destruct (remap_fold s0 m U0 (kids s RChildren d') s1 s' X1 (i1_nodup _ (ri_1a _ _ _ (rx_ri _ _ _ X)) RChildren d')) as [X' [A [B [C [D [K [F G]]]]]]]; [|exact E|].
+  destruct (remap_fold s0 m U0 (kids s RChildren d') s1 s' X1 (proj2 (ri_1a _ _ _ (rx_ri _ _ _ X) RChildren ltac:(discriminate)) d')) as [X' [A [B [C [D [K [F G]]]]]]]; [|exact E|].
   - intros x' Hx'. destruct (HL x' Hx') as [H1 H2]. split; [exact H1|]. split; [|exact H2].
     apply (ri_t _ _ _ (rx_ri _ _ _ X) RChildren d' x' Hx').
   - split; [exact X'|]. repeat split; assumption.
